@@ -941,3 +941,5 @@ mut('C17', 'zoneinfo', "    Return the timezone map, generating it if needed.\n 
 mut('C05', 'jsonparser', _USEC, "            usec = int(frac_sec[:5].ljust(6, '0'))", name='fraction cut to five digits')
 mut('C02', 'jsonparser', _USEC, "            usec = int(frac_sec[:7].ljust(6, '0'))", name='fraction cut to seven digits')
 mut('C20', 'datatypes', "    def __add__(self, other):\n        if isinstance(other, Qty):", "    def __add__(self, other):\n        if not isinstance(other, Qty):", name='unwrap guard inverted in __add__')
+mut('C04', 'zincdumper', "    return 'Bin(%s)' % dump_str(bin_value, version=version)", "    return None", name='ZINC writer of Bin returns None under 3.0')
+mut('C18', 'version', "VERSION_RE = re.compile(r'^(\\d[\\d\\.]*)([^\\d].*)*$')", "VERSION_RE = re.compile(r'^(\\d[\\d\\.]+)([^\\d].*)*$')", name='single-group versions rejected')
